@@ -187,6 +187,8 @@ class GenMT:
             out = 'unp'
         elif x < 0.24:
             out = 'spf'
+        elif x < 0.27 and self.regime == 'wild':
+            out = 'req'          # the request cannot be unpickled by the next tier
         return {'c': c, 'mode': None if rng.random() < self.free_p else rng.randrange(self.nw),
                 'db': db, 's': cur[0], 'r': cur[1], 'g': self.glob[c], 'cf': cur[2], 'y': self.sys[c],
                 'out': out, 'fronts': [rng.random() < 0.5 for _ in range(self.nw)]}
@@ -284,15 +286,19 @@ async def run_history(loop, spec, source, c17):
         try:
             await rig.pools[c].compile(
                 f"db{step['db']}", toks.obj[step['s']], toks.obj[step['g']], toks.obj[step['r']],
-                toks.obj[step['cf']], toks.obj[step['y']], (step['out'], 0))
+                toks.obj[step['cf']], toks.obj[step['y']],
+                R.BoomOnLoad('compile-arg') if step['out'] == 'req' else (step['out'], 0))
         except Exception as e:   # noqa: BLE001
             res = c17.classify_exc(e, state_mod, R)
         rig.give_back(held, step['fronts'])
         if len(rig.wire2) != n2 + 1 or len(rig.wire3) > n3 + 1:
             out.fails.append((f'rig-mt:{_hkey(out.steps)}', 'request did not travel as expected', {}))
             break
-        _meth, args2 = pickle.loads(rig.wire2[-1][1][32:])
-        sent = tuple(c17.wire_cid(a, R) for a in args2[1:6])
+        try:
+            _meth, args2 = pickle.loads(rig.wire2[-1][1][32:])
+            sent = tuple(c17.wire_cid(a, R) for a in args2[1:6])
+        except R.PayloadBoom:
+            sent = None          # (the whole message is unreadable, for us as for the compiler server)
         kind, inval, w, wdiff = None, [], None, None
         if len(rig.wire3) == n3 + 1:
             w, raw3 = rig.wire3[-1]
@@ -349,7 +355,12 @@ async def run_history(loop, spec, source, c17):
                 st['U-violations'] = st.get('U-violations', 0) + 1
                 slots = GhostMT.slots(step)
                 causes = {stale1.get((c, k[1:])) for (k, _t), u, s_ in zip(slots, used, supplied) if u != s_}
-                if causes <= {'remote-failed-sync'} and not (ghost.ok):
+                if 'unprocessed-request' in causes and causes <= {'remote-failed-sync', 'unprocessed-request'}:
+                    fail('unprocessed-request-wrong-state-used',
+                         'remote path: the compiler server could not unpickle an earlier request, the client '
+                         'acknowledged it anyway; the part is elided now and the worker compiles against the '
+                         'old one', {'used': used, 'supplied': supplied})
+                elif causes <= {'remote-failed-sync'} and not (ghost.ok):
                     fail('remote-failed-sync-wrong-state-used',
                          'remote path: after a worker-side FailedStateSync the compiler server is ahead of '
                          'the EdgeDB server\'s belief; a stale identity supplied again is elided and the '
@@ -376,12 +387,21 @@ async def run_history(loop, spec, source, c17):
                     stale1.pop((cc, sl), None)
                     continue
                 if (cc, sl) in stale1:
+                    if cc == c and bt != pt and step['out'] == 'req' and res == 'unpickleErr':
+                        stale1[(cc, sl)] = 'unprocessed-request'
                     continue
                 lag = bt == pt
                 cause = 'remote-failed-sync' if (cc == c and lag and res == 'syncFail') else 'unknown'
+                if cc == c and not lag and step['out'] == 'req' and res == 'unpickleErr':
+                    cause = 'unprocessed-request'
                 stale1[(cc, sl)] = cause
                 st['B1-violations'] = st.get('B1-violations', 0) + 1
-                if cause == 'unknown':
+                if cause == 'unprocessed-request':
+                    fail('unprocessed-request-belief-ahead',
+                         'remote path: handle_client_call could not unpickle the request (nothing stored), '
+                         'replied status 1 with that ordinary exception, and the client ran its '
+                         'acknowledgement callback', {'client': cc, 'slot': sl, 'belief': bt, 'actual': ac})
+                elif cause == 'unknown':
                     fail(f'mt-belief-violated:{"lag" if lag else "ahead"}:{_hkey(out.steps)}',
                          'remote path: the EdgeDB server believes the compiler server holds state it '
                          'does not hold', {'client': cc, 'slot': sl, 'belief': bt, 'actual': ac})
@@ -437,6 +457,20 @@ def local_witness():
         {'mt-pool-eviction-not-flushed-stale-belief', 'mt-pool-eviction-not-flushed-wrong-state-used'}
 
 
+def local_witness_drop():
+    """MultiTenantPool.drop_tenant(X), then X compiles again on the same worker: the tenant is only
+    MARKED invalidated, get_tenant_schema() still returns it, the pool sends "nothing changed" plus
+    the invalidation list, the worker deletes X and then fails (`assert client_schema is not None`);
+    the callback does not run, the list is never flushed: every request of X on that worker fails
+    (until a request of another client succeeds there)."""
+    tokens = {'8': ['S', 'n', 'S1'], '16': ['R', 'n', 'R1'], '20': ['C', 'n', 'C1'],
+              '28': ['G', 'n', 'G1'], '36': ['Y', 'n', 'Y1']}
+    spec = {'nworkers': 1, 'cache_size': 2, 'tokens': tokens, 'regime': 'witness', 'lmt': True}
+    q = {'c': 1, 'mode': 0, 'db': 0, 's': 8, 'r': 16, 'g': 28, 'cf': 20, 'y': 36, 'out': 'ok', 'fronts': [True]}
+    return spec, [dict(q), {'op': 'drop', 'c': 1}, dict(q), dict(q)], \
+        {'mt-pool-eviction-not-flushed-stale-belief'}
+
+
 # -------------------------------------------------------------- fixed streams
 def witness_specs():
     """concrete histories of Props/C17.lean (remote path), same token numbers.
@@ -456,6 +490,8 @@ def witness_specs():
          [Q(0, 0, 8, 28), Q(1, 0, 44, 28), Q(1, 1, 48, 28), Q(0, 0, 44, 28), Q(0, 1, 48, 28)], set()),
         ('status2_record', dict(base), [Q(0, 0, 8, 28), Q(0, 0, 44, 28, 'unp')],
          {'unserializable-result-stale-record'}),
+        ('lost_request', dict(base), [Q(0, 0, 44, 28, 'req'), Q(0, 0, 44, 28)],
+         {'unprocessed-request-belief-ahead', 'unprocessed-request-wrong-state-used'}),
         ('failed_sync', dict(base), [Q(0, 0, 44, 34), Q(0, 0, 8, 52)],
          {'remote-failed-sync-stale-belief', 'remote-failed-sync-wrong-state-used'}),
     ]
@@ -511,7 +547,7 @@ def compare(ctx, spec, out, model_lines, stats):
                 f = dict(x.split('=', 1) for x in head.split(' ') if '=' in x)
                 msent = tuple(None if x == '-' else ('BAD' if toks.bad(int(x)) else toks.cid(int(x)))
                               for x in f['sent'].split(','))
-                if msent != robs['sent']:
+                if robs['sent'] is not None and msent != robs['sent']:
                     diffs.append(f'sent: model {msent} real {robs["sent"]}')
                 if robs['cb'] is not None and (f['cb'] == '1') != robs['cb']:
                     diffs.append(f'callback: model {f["cb"]} real {robs["cb"]}')
@@ -550,6 +586,94 @@ def compare(ctx, spec, out, model_lines, stats):
                                     'EdbVerif.SyncMT.stepMT'}, no_input=True)
             return 1
     return 0
+
+
+# ------------------------------------------------------ concurrency scenario (remote path)
+async def sync_lock_scenario(loop, c17):
+    """Two defects of RemotePool under CONCURRENT requests of one client (the model and all other
+    streams are sequential).  One worker, schema identities S1 (initial), S2, S3.
+
+      A: compile(S2)   takes the sync lock, is sent; its reply is held back (slow worker)
+      B: compile(S1)   an older snapshot: nothing to send, so no lock is taken; the compiler server
+                       has already stored S2 -> B is compiled against S2               [defect 5]
+                       when B finishes, `_release_worker` releases the sync lock although A holds it
+                                                                                       [defect 4]
+      C: compile(S3)   can therefore take the lock while A is still in flight; acknowledged: belief S3
+      (A's reply arrives) A's callback now overwrites the belief with S2; the compiler server holds S3
+      D: compile(S2)   elided -> compiled against S3
+
+    Returns the list of (key, what, detail) the oracle found."""
+    import asyncio
+    import immutables
+    R = c17.rig_mod()
+    from lib import c17rig_mt
+
+    def mk(x):
+        return pickle.dumps(R.Payload(x))
+    S1, S2, S3, G1 = mk('S1'), mk('S2'), mk('S3'), mk('G1')
+    R1, C1, Y1 = immutables.Map({'id': 'R1'}), immutables.Map({'id': 'C1'}), immutables.Map({'id': 'Y1'})
+    rig = c17rig_mt.RigMT(loop, 1, 2, {1: ({'db0': (S1, R1, C1)}, G1, Y1)})
+    await rig.start()
+    pool, proto, log = rig.pools[1], rig.protos[1], rig.rec_logs[0]
+
+    async def settle():
+        for _ in range(30):
+            await asyncio.sleep(0)
+
+    def req(s):
+        return pool.compile('db0', s, G1, R1, C1, Y1, ('ok', 0))
+
+    fails = []
+    proto.hold_next = 1
+    ta = loop.create_task(req(S2))
+    await settle()
+    in_flight = (not ta.done()) and len(proto.held) == 1
+    lock_held_by_a = pool._sync_lock.locked()
+    n = len(log)
+    tb = loop.create_task(req(S1))                    # B
+    await settle()
+    b_waited = not tb.done()          # (a pool that makes B wait for the in-flight sync is fine)
+    if b_waited:
+        proto.release_held()
+        await ta
+    await tb
+    used_b = log[n][1] if len(log) > n else None
+    lock_after_b = pool._sync_lock.locked() and not ta.done()
+    tc = loop.create_task(req(S3))                    # C
+    await settle()
+    c_overtook = tc.done() and not ta.done()
+    proto.release_held()
+    await ta
+    if not tc.done():
+        await tc
+    n = len(log)
+    await req(S2)                                     # D
+    used_d = log[n][1] if len(log) > n else None
+    belief = R.cid_of(pickle.loads(rig.rworkers[1]._dbs['db0'].user_schema_pickle))
+    server = R.cid_of(pickle.loads(rig.mpool._clients[1].dbs['db0'].user_schema))
+    detail = {'in_flight': in_flight, 'lock_held_by_A': lock_held_by_a, 'lock_still_held_after_B': lock_after_b,
+              'B_waited_for_A': b_waited, 'C_completed_while_A_in_flight': c_overtook, 'B_supplied': 'S1', 'B_used': used_b,
+              'D_supplied': 'S2', 'D_used': used_d, 'belief_after': belief, 'compiler_server_after': server,
+              'history': {'scenario': 'sync_lock'}}
+    if not in_flight:
+        fails.append(('rig-scenario:sync_lock', 'scenario did not get request A in flight', detail))
+        return fails, detail
+    if used_b != 'S1':
+        fails.append(('remote-concurrent-request-compiled-against-newer-state',
+                      'remote path, concurrent requests of one client: a request carrying an older snapshot, '
+                      'with nothing to send, is compiled against the state another in-flight request has '
+                      'already stored on the compiler server (it does not wait for the sync lock)', detail))
+    if lock_held_by_a and not lock_after_b and not b_waited:
+        if used_d != 'S2' or belief != server:
+            fails.append(('remote-sync-lock-released-by-other-request',
+                          'RemotePool._release_worker releases the sync lock whenever it is locked, also when a '
+                          'different request holds it: a third request synced while the first was in flight, '
+                          'the acknowledgements were applied out of order, the belief is wrong and a later '
+                          'request is compiled against another schema', detail))
+    elif used_d != 'S2':
+        fails.append((f'mt-scenario-used-violated:{_hkey(detail)}', 'scenario: D compiled against another schema',
+                      detail))
+    return fails, detail
 
 
 # ------------------------------------------------ in-process MultiTenantPool (oracle only)
@@ -592,6 +716,15 @@ async def run_local_history(loop, spec, source, c17):
     steps_src = None if online else list(source)
     for i in range(spec.get('len', 0) if online else len(steps_src)):
         step = source.next() if online else dict(steps_src[i])
+        if online and spec.get('drops') and source.rng.random() < 0.06:
+            step = {'op': 'drop', 'c': step['c']}
+        if step.get('op') == 'drop':
+            # MultiTenantPool.drop_tenant(): every worker marks the client as invalidated
+            rig.pool.drop_tenant(step['c'])
+            out.steps.append(step)
+            st['L:drop_tenant'] = st.get('L:drop_tenant', 0) + 1
+            prev = snap_local()
+            continue
         c = step['c']
         held = []
         if step['mode'] is not None:
@@ -602,7 +735,8 @@ async def run_local_history(loop, spec, source, c17):
         try:
             await rig.pool.compile(
                 f"db{step['db']}", toks.obj[step['s']], toks.obj[step['g']], toks.obj[step['r']],
-                toks.obj[step['cf']], toks.obj[step['y']], (step['out'], 0), client_id=c)
+                toks.obj[step['cf']], toks.obj[step['y']],
+                R.BoomOnLoad('compile-arg') if step['out'] == 'req' else (step['out'], 0), client_id=c)
         except Exception as e:   # noqa: BLE001
             res = c17.classify_exc(e, state_mod, R)
         rig.give_back(held, step['fronts'])
@@ -625,8 +759,17 @@ async def run_local_history(loop, spec, source, c17):
             causes = {stale.get((w, c, sl)) for sl, u_, s_ in zip(
                 (('S', step['db']), ('G',), ('R', step['db']), ('C', step['db']), ('Y',)), used, supplied)
                 if u_ != s_}
+            if c in prev[w][1]:
+                # the served client was in this worker's pending invalidation list when the call was made:
+                # the worker deleted it and rebuilt it from a partial message
+                causes = (causes - {None}) | {'eviction-not-flushed'}
             st['LU-violations'] = st.get('LU-violations', 0) + 1
-            if causes <= {'unserializable-result'}:
+            if 'unprocessed-request' in causes and \
+                    causes <= {'unserializable-result', 'unprocessed-request', 'eviction-not-flushed'}:
+                fail('unprocessed-request-wrong-state-used',
+                     'MultiTenantPool: an earlier request could not be unpickled by the worker but was '
+                     'acknowledged', {'used': used, 'supplied': supplied})
+            elif causes <= {'unserializable-result'}:
                 fail('unserializable-result-wrong-state-used',
                      'MultiTenantPool: stale belief after status 2, stale identity supplied again',
                      {'used': used, 'supplied': supplied})
@@ -653,6 +796,8 @@ async def run_local_history(loop, spec, source, c17):
                         stale.pop((j, cid, sl), None)
                         continue
                     if (j, cid, sl) in stale:
+                        if j == w and cid == c and step.get('out') == 'req' and res == 'unpickleErr':
+                            stale[(j, cid, sl)] = 'unprocessed-request'
                         continue
                     pb = pbel.get(cid)
                     pt = None
@@ -661,7 +806,9 @@ async def run_local_history(loop, spec, source, c17):
                             (pb[0].get(sl[1]) or (None, None, None))['SRC'.index(sl[0])]
                     lag = bt == pt
                     cause = 'unserializable-result' if (j == w and cid == c and lag and res == 'serErr') else 'unknown'
-                    if cause == 'unknown' and lag and res != 'ok' and (
+                    if j == w and cid == c and not lag and step['out'] == 'req' and res == 'unpickleErr':
+                        cause = 'unprocessed-request'
+                    if cause == 'unknown' and lag and (
                             (a is None and cid in _inv) or
                             any(stale.get((j, cid, s2)) == 'eviction-not-flushed' for s2 in slots)):
                         # the worker was told to delete this client, the call then failed and the pool
@@ -669,7 +816,11 @@ async def run_local_history(loop, spec, source, c17):
                         cause = 'eviction-not-flushed'
                     stale[(j, cid, sl)] = cause
                     st['LB-violations'] = st.get('LB-violations', 0) + 1
-                    if cause == 'eviction-not-flushed':
+                    if cause == 'unprocessed-request':
+                        fail('unprocessed-request-belief-ahead',
+                             'MultiTenantPool: the worker could not unpickle the request, the pool acknowledged '
+                             'it anyway', {'worker': j, 'client': cid, 'slot': sl})
+                    elif cause == 'eviction-not-flushed':
                         fail('mt-pool-eviction-not-flushed-stale-belief',
                              'MultiTenantPool: maybe_invalidate_last() marked a client, the invalidation '
                              'went to the worker with the call, the call failed (FailedStateSync / status 2) '
